@@ -205,7 +205,7 @@ def library_input(cfg, values):
     elif rep == "float":
         conv = lambda m: np.array(m.real, dtype=float)  # noqa: E731
         h0 = np.diag(np.array([float(e[0]) for e in E]))
-    elif rep == "csr":
+    elif rep in ("csr", "csrm-blocks", "coom-blocks"):
         conv = lambda m: sparse.csr_array(np.array(m, dtype=complex))  # noqa: E731
         d = np.array([complex(e[0], e[1]) for e in E])
         h0 = sparse.csr_array(np.diag(d if cplxE else d.real))
@@ -239,6 +239,18 @@ def library_input(cfg, values):
         kwargs = dict(subspace_eigenvectors=pairs, hermitian=cfg["hermitian"])
     if len(cfg["sizes"]) == 1 and cfg.get("no_indices"):
         kwargs.pop("subspace_indices")
+    if rep in ("csrm-blocks", "coom-blocks") and not cfg.get("indices") and cfg.get("basis") != "RL":
+        # legacy scipy.sparse *matrix* classes, handed over already separated into blocks
+        cls = sparse.csr_matrix if rep == "csrm-blocks" else sparse.coo_matrix
+        off = offsets(cfg["sizes"])
+        nb = len(cfg["sizes"])
+
+        def blocks(m):
+            d = m.toarray() if sparse.issparse(m) else np.asarray(m)
+            return [[cls(d[off[i] : off[i + 1], off[j] : off[j + 1]]) for j in range(nb)] for i in range(nb)]
+
+        Hd = {o: blocks(m) for o, m in Hd.items()}
+        kwargs.pop("subspace_indices", None)
     if cfg.get("mask") is not None:
         md = {int(b): np.array(m, dtype=bool) for b, m in cfg["mask"].items()}
         if cfg.get("bare"):
